@@ -264,11 +264,31 @@ func vRetryThrottleGen(r *vRand, tier string, idx int) ([]int64, [][]int64) {
 		}
 		ops = append(ops, []int64{1, 1, 14, 2}, []int64{1, 1, 13, 2}, vCat([]int64{1, 1, 13, 1}, vBytes([]byte("5"))), vCat([]int64{1, 1, 13, 1}, vBytes([]byte("x"))))
 		return cfg, ops
+	case 4, 5:
+		// small MaxBackoff, InitialBackoff x Multiplier^k far above 2^63 ns (or +Inf) for a
+		// reachable k: the delay must still be within [0.8, 1.2] x MaxBackoff (clause 2).
+		// case 4: 0.05s x 1e12^k, max 0.5s (k = 1..3); case 5: 1s x 2100^k, max 30s (k = 3).
+		cfg := []int64{5, 50000000, 500000000, vRetryThrottleF(1e12), vRetryThrottleF(1000), vRetryThrottleF(1)}
+		if idx == 5 {
+			cfg = []int64{5, 1000000000, 30000000000, vRetryThrottleF(2100), vRetryThrottleF(1000), vRetryThrottleF(1)}
+		}
+		var ops [][]int64
+		for i := 0; i < 6; i++ {
+			n := int64(2 + i%4)
+			op := []int64{1, n}
+			for j := int64(0); j < n; j++ {
+				op = append(op, r.PickI64(14, 10), 0)
+			}
+			ops = append(ops, op)
+		}
+		// a pushback in the middle restarts k, after which the product grows again
+		ops = append(ops, vCat([]int64{1, 5, 14, 0, 14, 1}, vBytes([]byte("7")), []int64{14, 0, 10, 0, 14, 0}))
+		return cfg, ops
 	}
 	maxAttempts := r.PickI64(2, 3, 4, 5, 5, 8, 12)
 	initB := r.PickI64(1, 1000, 1000000, 100000000, 1+r.I64n(1000000000))
 	maxB := r.PickI64(initB, 2*initB, 1+r.I64n(100000000000), 1000000000, 1000000000000000)
-	mult := []float64{1, 1.5, 2, 1.6, 10, 0.5, 1e-3, 1e300, 1e-300, 3.3333}[r.Intn(10)]
+	mult := []float64{1, 1.5, 2, 1.6, 10, 0.5, 1e-3, 1e300, 1e-300, 3.3333, 1e12, 2100, 1e9}[r.Intn(13)]
 	if r.Chance(30) {
 		mult = 0.5 + float64(r.Intn(4000))/1000
 	}
